@@ -35,7 +35,7 @@ RULE = ("seeded histories: 2-3 operations (priorities 0..3, all started first, s
         "towards resources somebody else holds (re-entrant and repeated attempts included), the rest release / complete / "
         "abort (more often for operations that are blocked or waited on) / re-start of an ended id / controller.advance at "
         "its own virtual time (phase machinery, in an order unrelated to the start order) / watchdog.execute (priority "
-        "or oldest strategy, optional time limit) / check_and_boost / clock; seeded families: ring, pre-emption, inheritance-then-retry, double wait, side wait into a dead end, "
+        "or oldest strategy, optional time limit) / check_and_boost / clock; manual kill through the same watchdog / seeded families: rematch after a watchdog or manual kill, ring, pre-emption, inheritance-then-retry, double wait, side wait into a dead end, "
         "end-while-blocked-then-restart; after every "
         "step check_deadlock() is compared with a reference wait-for relation recomputed from the history and the real "
         "lock owners; non-trivial = a history in which at least one acquisition was BLOCKED; distinct = distinct "
@@ -64,7 +64,9 @@ EXPECT_PROBES = ("blocked", "preempted", "reentrant", "ref_cycle", "ref_cycle_3"
                  "acquire_while_waiting", "timeout_kill", "complete_while_waiting", "restarted",
                  "restarted_after_ending_blocked", "restarted_after_ending_waited_on", "preempted_while_waiting_for_it",
                  "advanced", "oldest_judged_with_phase_order_different", "exempt_set", "cycle_with_exempt_member",
-                 "cycle_all_members_exempt", "victim_is_exempt_member", "victim_judged_with_exempt_other_member")
+                 "cycle_all_members_exempt", "victim_is_exempt_member", "victim_judged_with_exempt_other_member",
+                 "manual_kill", "cycle_with_member_restarted_after_watchdog_kill",
+                 "victim_was_killed_by_this_watchdog_before")
 
 OPS = ["A", "B", "C"]
 RES = ["r0", "r1", "r2"]
@@ -146,6 +148,29 @@ def gen(rng, tier, i):
         held = {"r0": "B", "r1": "B"}
         wants.update(["B", "C"])
         depth = max(depth, len(ops) + 2)
+    elif rng.random() < 0.1:
+        # rematch family: a two-party deadlock is broken by the (one, long-lived) watchdog or by a manual kill through it,
+        # the killed ids are started again under the same id and priority, and the same two meet again
+        a, b = rng.sample(OPS[:nops], 2)
+        ring1 = [["acq", a, "r0"], ["acq", b, "r1"], ["acq", a, "r1"], ["acq", b, "r0"]]
+        how = rng.choice(["wd", "wd", "kill_one", "kill_both"])
+        if how == "wd":
+            brk = [["wd"]]
+        elif how == "kill_one":
+            brk = [["kill", rng.choice([a, b])]]
+        else:
+            brk = [["kill", a], ["kill", b]]
+        if rng.random() < 0.3:
+            brk.append(["clock", 1.0])
+        again = [["start", o_, prio_of.get(o_, 0)] for o_ in (rng.sample([a, b], 2))]
+        ring2 = [["acq", a, "r0"], ["acq", b, "r1"], ["acq", a, "r1"], ["acq", b, "r0"]]
+        if rng.random() < 0.5:
+            ring2[2], ring2[3] = ring2[3], ring2[2]
+        ops = ring1 + brk + again + ring2 + [["wd"]]
+        held = {"r0": a, "r1": b}
+        wants.update([a, b])
+        waits.update([(a, b), (b, a)])
+        depth = max(depth, len(ops) + 1)
     elif rng.random() < 0.07 and nres == 3 and nops == 3:
         # side-wait family: a cycle member first blocks on a resource of a bystander who waits for nobody (a dead end of
         # the wait-for graph), then on the resource that closes the cycle
@@ -220,7 +245,7 @@ def gen(rng, tier, i):
         else:
             hot = 2.5 if (o in wants or any(h == o for h in held.values())) else 1.0
             waited_on = any(h == o for (_, h) in waits) and sum(1 for h in held.values() if h == o) >= 2
-            kind = weighted(rng, [(9 if waited_on else 3, "rel"), (1.3 * hot, "complete"), (1.3 * hot, "abort"), (2.2, "wd"), (1.0, "boost"),
+            kind = weighted(rng, [(9 if waited_on else 3, "rel"), (1.3 * hot, "complete"), (1.3 * hot, "abort"), (0.6 * hot, "kill"), (2.2, "wd"), (1.0, "boost"),
                                   (0.6, "clock"), (0.5, "check")])
             if kind == "rel":
                 mine = [r for r in res if held.get(r) == o]
@@ -228,7 +253,7 @@ def gen(rng, tier, i):
                 ops.append(["rel", o, r])
                 if held.get(r) == o:
                     held[r] = None
-            elif kind in ("complete", "abort"):
+            elif kind in ("complete", "abort", "kill"):
                 ops.append([kind, o])
                 wants.discard(o)
                 waits = {(a_, b_) for (a_, b_) in waits if a_ != o and b_ != o}
@@ -392,6 +417,7 @@ def run(plan, k):
     ref = Ref(ctrl)
     ctxs = {}
     used = set()
+    killed_by_wd = set()   # ids this (long-lived) watchdog terminated at some time (execute or manual_kill)
     ended_how = {}         # op -> (how, was waiting, was waited on) at the time it last ended
     prov = {}              # discrepancy (kind, w, b, r) -> (provenance string, step index)
     prev_rec = set()
@@ -606,6 +632,21 @@ def run(plan, k):
                     k.probe("boost_applied")
             elif name == "check":
                 pass
+            elif name == "kill":
+                o = op[1]
+                if o not in ref.live:
+                    continue
+                actor = o
+                was_waiting = any(w_ == o for (w_, _, _) in ref.edges(False))
+                was_waited = any(b == o for (_, b, _) in ref.edges(False))
+                out = call(wd.manual_kill, ctrl, o, "sim", tracer=tr)
+                if out.kind != "ok":
+                    k.violation("exact", "manual_kill_" + out.kind, "manual_kill", str(out.exc)[:200])
+                end(o, "manual_kill", was_waiting, was_waited)
+                killed_by_wd.add(o)
+                k.probe("manual_kill")
+                k.ev("kill", [o])
+                cls = "abort"
             elif name == "exempt":
                 if op[1] not in ref.live:
                     continue
@@ -640,10 +681,15 @@ def run(plan, k):
                 k.ev("wd", [[e.operation_id, e.reason.name] for e in events])
                 snapshot_live = dict(ref.live)
                 dl = [e for e in events if e.reason.name == "DEADLOCK"]
+                if before is not None and any(o_ in killed_by_wd for o_ in before):
+                    k.probe("cycle_with_member_restarted_after_watchdog_kill")
                 for e in events:
                     if e.reason.name != "DEADLOCK":
                         k.probe("timeout_kill")
+                    elif e.operation_id in killed_by_wd:
+                        k.probe("victim_was_killed_by_this_watchdog_before")
                     end(e.operation_id, "watchdog", True, True)
+                    killed_by_wd.add(e.operation_id)
                 if dl:
                     k.probe("deadlock_handled")
                 if before is not None:
